@@ -25,14 +25,12 @@ def norm_rel(root, path):
 
 
 def last_component(path):
-    """What Rust's Path::components().next_back() yields for a source argument."""
+    """The last component of a source argument as cp (POSIX basename) sees it: trailing slashes do not count, `.` and `..` do
+    (`dir/.` names the directory's contents, not the directory)."""
     p = path.rstrip("/")
     if not p:
         return "/"
-    comps = [c for c in p.split("/") if c not in ("", ".")] if p not in (".",) else ["."]
-    if not comps:
-        return "."
-    return comps[-1]
+    return p.split("/")[-1]
 
 
 def resolve(snap, rel, depth=0):
@@ -85,9 +83,10 @@ def map_sources(snap, root, sources, dest, no_target_dir=False):
         if rec is None:
             raise ModelSkip("source missing: " + s)
         base = last_component(s)
-        if base in (".", "..", "/"):
-            raise ModelSkip("source ends in . or ..")
-        tb = posixpath.join(dest_rel, base) if (dest_is_dir and not no_target_dir) else dest_rel
+        if base == "/":
+            raise ModelSkip("source is the root")
+        # (a source spelled `dir/.` or `dir/..` has no name of its own: cp puts its contents into the destination itself)
+        tb = posixpath.join(dest_rel, base) if (dest_is_dir and not no_target_dir and base not in (".", "..")) else dest_rel
         entries = [(s_rel, tb, rec)]
         if rec["k"] == "d":
             for c in children(snap, s_rel):
